@@ -16,7 +16,7 @@ PROP = {
     ],
 }
 TEXT = {
-    "text": "Six theorems over ALL schedules of the atomic-action model of fastclock.go (induction over the action list; any number of goroutines, idle gaps, StopTimeoutClock calls): C14_no_early_timeout (a timeout error is never observed before t0 + d - 2*lag - 2 ticks), C14_finished_in_time_no_error, C14_timeout_fires (current >= deadline is written by t0 + d + 2*period + 3*lag), C14_clock_exits (goroutine gone 2*(period+lag) after the later of the last call and clockEnd), C14_clock_restarts (makeDeadline on any stopped clock refreshes current and starts a new goroutine), and C14_no_early_timeout_orig_refuted: the pinned makeDeadline lets a match that starts together with another one after an idle period keep a deadline computed from the stale clock (false timeout after one period) — reproduced on the real code through the public API and fixed in /repo's working tree by a 3-line reordering; the model follows the fixed code. The model is tied to the code by replaying recorded real histories (stamps, hook snapshots, runtime.Stack) on the extracted step function.",
+    "text": "Six theorems over ALL schedules of the atomic-action model of fastclock.go (induction over the action list; any number of goroutines, idle gaps, StopTimeoutClock calls): C14_no_early_timeout (a timeout error is never observed before t0 + d - 2*lag - 2 ticks), C14_finished_in_time_no_error, C14_timeout_fires (current >= deadline is written by t0 + d + 2*period + 3*lag), C14_clock_exits (goroutine gone 2*(period+lag) after the later of the last call and clockEnd), C14_clock_restarts (makeDeadline on any stopped clock refreshes current and starts a new goroutine), and C14_no_early_timeout_orig_refuted: the pinned makeDeadline lets a match that starts together with another one after an idle period keep a deadline computed from the stale clock (false timeout after one period) — reproduced on the real code through the public API and fixed in /repo's working tree by docs/patches/C14-fastclock-false-timeout.patch (load clockEnd before current, always recompute the deadline under the lock, extend the clock in the same critical section); the model follows the fixed code. The model is tied to the code by replaying recorded real histories (stamps, hook snapshots, runtime.Stack) on the extracted step function.",
     "design_ref": "DESIGN.md §4 C14",
     "note": "Coq kernel; no axioms. PARTIAL: theorems are about the model; Sleep accuracy, goroutine start latency and the Go memory model are assumptions exercised only by leg c14-clock. Genuine defect found and fixed (false timeout after idle with concurrent matches); known finding c14-overflow (MatchTimeout within clockPeriod of MaxInt64).",
     "technique": "Coq proof (invariant over an interleaving model of goroutines with mutex and timed-automaton urgency) + replay of recorded real-clock histories on the extracted model",
